@@ -87,6 +87,17 @@ var Faults = []Fault{
 		q.FixSizes()
 		w.Raw = q.Encode()
 	}, MinLevel: LvlBase},
+	{Name: "intermediate-not-yet-valid-while-the-crl-header-carries-a-valid-edition", Post: func(w *World) {
+		// the quote embeds an edition of the issuing CA's certificate (same name, same key) that becomes valid a day after
+		// the verification time; the PCK CRL answer carries the currently valid edition in its issuer-chain header. The
+		// chain in the quote is what is judged: data fetched for a further check never repairs it.
+		spec := w.PKI.Spec
+		notYet := MakeCert(CertSpec{CN: w.PKI.Int.X.Subject.CommonName, KeyLabel: spec.Seed + "/int", Serial: serialOr(nil, spec.Seed+"/int-not-yet-valid"), NotBefore: w.Times.PckCertChain.Add(24 * time.Hour), NotAfter: Wide.NotAfter, CA: true, CRLDP: spec.RootCRLDP}, w.PKI.Root)
+		q := w.Q.Clone()
+		q.Chain = ChainPEM(w.Leaf, notYet, w.PKI.Root)
+		q.FixSizes()
+		w.Raw = q.Encode()
+	}, MinLevel: LvlBase},
 	{Name: "issuer-chain-header-only-under-two-other-spellings", Post: func(w *World) {
 		// no header under the canonical name; the genuine chain under an all-lower-case name and a foreign chain under
 		// an all-upper-case name: whichever a tolerant lookup would pick, it must pick the same one every time
